@@ -163,6 +163,15 @@ def figure_lifecycle(ctx, rule='C20-R2'):
             nm2 = T.subst(name, {('p', k): v for k, v in bound.items() if k != 'self'})
             tbl = fx.ex.loops               # (call sites are own events of the caller: the executor's loop table)
             cases.append((cq, se, nm2, [tbl[l] for l in se.loops if l in tbl], se.guard))
+    # format-specific options: `metadata=`, `pil_kwargs=` are accepted by some writers and refused (ValueError) by others
+    # (jpg, tif, webp, raw, ... take no metadata); the format is the caller's choice
+    FORMAT_SPECIFIC = {'metadata', 'pil_kwargs', 'papertype', 'backend'}
+    for fq, e in writers:
+        kws = e.call[3] if tag(e.call) == 'call' else (e.call[4] if tag(e.call) == 'mcall' else ())
+        bad_kw = [k for k, _ in kws if k in FORMAT_SPECIFIC or k is None]
+        ctx.check(not bad_kw, rule, fq, e.node, e.loc(),
+                  f'savefig is given {bad_kw}: an option that only some file formats accept, while the format is whatever the '
+                  'caller asks for - the writers of the other formats raise', instance=f'{fq}: savefig options valid for every format')
     for fq, e, name, loops, guard in cases:
         in_fmt_loop = any(T.contains(l.iter, lambda x: tag(x) == 'p' and 'fmt' in x[1]) for l in loops)
         per_fmt = name is not None and T.contains(name, lambda x: tag(x) == 'lv')
